@@ -25,6 +25,10 @@ at which a party can be parked or a fault injected; behaviour is unchanged):
             0 .. workers+3 accessories with a blocking run(), so a pairing change's save may sit in the pool's
             queue when stop() is called; pair / unpair / config_changed on the loop, with and without time to
             settle; judged after start() has returned and the pool's threads have ended: file == memory;
+  spelling  persist_file spelled as a bare name (the constructor default) / ./name / relative path / absolute path /
+            ~ path, the process working directory elsewhere, and the system temp directory on ANOTHER file system
+            (os.replace across it fails with EXDEV): public API only; file == memory at quiescence, and where the
+            save created its temp file is observed (the property's mechanism is a temp sibling of the state file);
   natural   the same path free-running, with seeded jitter in the wrappers;
   public    every operation that changes the persisted state, through the real request handler or
             the public driver method that schedules its own save (pair-setup completion, add-pairing
@@ -1901,6 +1905,149 @@ def twin_stream(ctx: Ctx, model_cases: list):
         twin_case(ctx, {"name": f"twin-{n}", "ops": [opsA, opsB], "fail_every": rng.choice([0, 2, 3])})
 
 
+# --------------------------------------------------------------------------- stream: spelling
+
+
+def spelling_case(ctx: Ctx, scn: dict, verbose=False) -> None:
+    """The spelling of persist_file as configuration (bare file name relative to the working directory - the
+    constructor default is one -, relative path, absolute path, '~' path) in an environment where the system
+    temp directory is ANOTHER FILE SYSTEM than the state file's directory (tmpfs /tmp, TMPDIR): os.replace
+    from inside that temp directory to outside it fails with EXDEV, as rename(2) does across mounts.  Public
+    API only: constructor, add_accessory() (stores the first file), pair()/unpair() on a loop, config_changed().
+    Judged at quiescence: the state file, where the configured name puts it, equals the in-memory state; the
+    directory in which the save created its temp file is reported."""
+    if getattr(ctx, "hung", False):
+        return
+    ad, _, _ = _pyhap()
+    from pyhap.accessory import Accessory
+
+    st = ctx.stats
+    root = tempfile.mkdtemp(prefix="c15n-")
+    home = os.path.join(root, "home")
+    work = os.path.join(root, "work")
+    other_fs = os.path.join(root, "tmpfs")
+    for d in (home, os.path.join(work, "conf"), other_fs):
+        os.makedirs(d)
+    spelled = {"bare": STATE_FILE, "relative": os.path.join("conf", STATE_FILE), "dot": os.path.join(".", STATE_FILE),
+               "absolute": os.path.join(work, "conf", STATE_FILE), "home": os.path.join("~", STATE_FILE)}[scn["spelling"]]
+    replay = {"kind": "spelling", "scenario": scn}
+    real_replace, real_rename, real_ntf = os.replace, os.rename, tempfile.NamedTemporaryFile
+    old_cwd, old_tmp, old_home = os.getcwd(), tempfile.tempdir, os.environ.get("HOME")
+    temp_dirs: List[str] = []
+
+    def inside(path, d):
+        return os.path.commonpath([os.path.realpath(os.path.abspath(os.fspath(path))), os.path.realpath(d)]) == os.path.realpath(d)
+
+    def cross(src, dst):
+        if inside(src, other_fs) != inside(dst, other_fs):
+            raise OSError(errno.EXDEV, "Invalid cross-device link", os.fspath(src))
+
+    def replace(src, dst, *a, **kw):
+        cross(src, dst)
+        return real_replace(src, dst, *a, **kw)
+
+    def rename(src, dst, *a, **kw):
+        cross(src, dst)
+        return real_rename(src, dst, *a, **kw)
+
+    def ntf(*a, **kw):
+        f = real_ntf(*a, **kw)
+        temp_dirs.append(os.path.dirname(os.path.abspath(f.name)))
+        return f
+
+    loop = asyncio.new_event_loop()
+    errors: List[str] = []
+    try:
+        os.chdir(work)
+        os.environ["HOME"] = home
+        tempfile.tempdir = other_fs
+        os.replace, os.rename, tempfile.NamedTemporaryFile = replace, rename, ntf
+        where = os.path.abspath(os.path.expanduser(spelled))
+        driver = ad.AccessoryDriver(loop=loop, persist_file=spelled, address="127.0.0.1", port=51850, mac="AA:BB:CC:DD:EE:20", pincode=b"031-45-154")
+        try:
+            driver.add_accessory(Accessory(driver, "Lamp"))  # no file yet: stores the first one
+        except Exception as ex:  # noqa: BLE001
+            errors.append(f"add_accessory raised {type(ex).__name__}: {ex}")
+        futs = []
+        orig_rie = loop.run_in_executor
+
+        def rie(executor, fn, *args):
+            f = orig_rie(executor, fn, *args)
+            futs.append(f)
+            return f
+
+        loop.run_in_executor = rie
+
+        async def go():
+            for op in scn["ops"]:
+                if op["op"] == "pair":
+                    driver.pair(op["id"].encode(), bytes.fromhex(op["key"]), bytes([op["perm"]]))
+                elif op["op"] == "unpair":
+                    if uuid.UUID(op["id"]) in driver.state.paired_clients:
+                        driver.unpair(uuid.UUID(op["id"]))
+                await asyncio.sleep(0)
+            for r in await asyncio.wait_for(asyncio.gather(*futs, return_exceptions=True), HANG_S):
+                if isinstance(r, BaseException):
+                    errors.append(f"a background save raised {type(r).__name__}: {r}")
+
+        loop.run_until_complete(go())
+        if scn.get("config_changed"):
+            try:
+                driver.config_changed()
+            except Exception as ex:  # noqa: BLE001
+                errors.append(f"config_changed raised {type(ex).__name__}: {ex}")
+        mem = ref.canon_state(driver.state)
+        which, why = judge_file(where, [("memory", mem)])
+        state_dir = os.path.dirname(where)
+        outside = sorted({d for d in temp_dirs if os.path.realpath(d) != os.path.realpath(state_dir)})
+        left = [n for d in {state_dir, other_fs} for n in os.listdir(d) if n != STATE_FILE and os.path.isfile(os.path.join(d, n))]
+        st.hit("op", "spelling-run")
+        st.hit("outcome", f"spelling[{scn['spelling']}]:file=" + ("memory" if which else "STALE") + (":temp-outside-state-dir" if outside else ""))
+        st.case(["spelling", scn], True)
+        if verbose:
+            print(f"persist_file={spelled!r} (cwd = the work directory, system temp directory on another file system); temp files created in "
+                  f"{'the state file directory' if not outside else 'ANOTHER directory: ' + str([os.path.relpath(d, root) for d in outside])}; errors {errors[:2]};",
+                  "file == memory" if which else "STALE: " + why)
+        if which is None:
+            ctx.fail(
+                "C15:file-stale-at-quiescence:temp-file-outside-state-directory" if outside else "C15:file-stale-at-quiescence:no-save-scheduled",
+                f"persist_file={spelled!r} ({scn['spelling']} spelling), the system temp directory is another file system than the "
+                f"state file's directory (os.replace between them fails with EXDEV); {len(scn['ops'])} pairing change(s), all saves ended: "
+                f"the state file is not the in-memory state: {why}; the save created its temp file in "
+                f"{'the system temp directory, not beside the state file' if outside else 'the state directory'}; {errors[:2]}",
+                replay,
+            )
+        elif left:
+            ctx.fail("C15:handled-failure-leaves-temp-file", f"persist_file={spelled!r}: {len(left)} temp file(s) left after clean saves", replay)
+    except Hung as ex:
+        ctx.hung = True
+        ctx.fail("C15:save-blocks-forever", f"spelling: {ex}", replay)
+    finally:
+        os.replace, os.rename, tempfile.NamedTemporaryFile = real_replace, real_rename, real_ntf
+        tempfile.tempdir = old_tmp
+        if old_home is None:
+            os.environ.pop("HOME", None)
+        else:
+            os.environ["HOME"] = old_home
+        os.chdir(old_cwd)
+        try:
+            loop.run_until_complete(asyncio.wait_for(loop.shutdown_default_executor(), 5))
+        except Exception:  # noqa: BLE001
+            pass
+        loop.close()
+        shutil.rmtree(root, ignore_errors=True)
+
+
+def spelling_stream(ctx: Ctx):
+    rng = ctx.rng
+    for sp in ("bare", "dot", "relative", "absolute", "home"):
+        _, ops = mk_ops(rng, 0, rng.randrange(1, 3))
+        spelling_case(ctx, {"name": "spelling", "spelling": sp, "ops": ops, "config_changed": sp in ("bare", "relative")})
+    for _ in range(ctx.n(3, 30)):
+        _, ops = mk_ops(rng, 0, rng.randrange(0, 4))
+        spelling_case(ctx, {"name": "spelling", "spelling": rng.choice(["bare", "dot", "relative", "absolute", "home"]), "ops": ops, "config_changed": rng.random() < 0.4})
+
+
 # --------------------------------------------------------------------------- stream: lifecycle
 
 
@@ -2771,6 +2918,7 @@ def run(ctx: Ctx):
         midread_stream(ctx, model_cases)
         twin_stream(ctx, model_cases)
         lifecycle_stream(ctx)
+        spelling_stream(ctx)
         natural_stream(ctx)
         public_stream(ctx)
         _run_models(ctx, model_cases)
@@ -2818,6 +2966,8 @@ def replay(ctx: Ctx, r):
         twin_case(ctx, r["scenario"], verbose=True)
     elif kind == "lifecycle":
         lifecycle_case(ctx, r["scenario"], verbose=True)
+    elif kind == "spelling":
+        spelling_case(ctx, r["scenario"], verbose=True)
     elif kind == "natural":
         for _ in range(20):  # timing dependent: try a few times
             if not natural_case(ctx, r["scenario"], r["ops"], r["jitter"], r["gaps"], verbose=True):
